@@ -47,6 +47,21 @@ def _case(draw):
         site = [site, ["top.txt", {"kind": "txt", "content": "top\n"}]]
     else:
         site = draw(sites.site(full=full, gopher_ok=gopher_ok, depth=3, max_items=4, virtual_seps=vsep))
+    if vsep and not longn:
+        # make sure the flavour is about what it is named after: a mailbox / script below a path with '?' or '|'
+        def mark(items, depth=0):
+            for ent in items:
+                if ent[1]["kind"] in ("mbox", "maildir", "exec") and draw(st.booleans()):
+                    ent[0] = draw(st.sampled_from(["?", "|", "a?b", "x|y"])) + ent[0]
+                elif ent[1]["kind"] in ("dir",) and draw(st.integers(0, 3)) == 0:
+                    ent[0] = ent[0] + draw(st.sampled_from(["?", "|q"]))
+                if ent[1]["kind"] in ("dir", "map", "zip"):
+                    mark(ent[1]["items"], depth + 1)
+        mark(site)
+        names = [e[0] for e in site]
+        if len(set(names)) != len(names) or not all(gen.servable_name(n, True, full and False) for n in names):
+            vsep = False
+            site = [["readme.txt", {"kind": "txt", "content": "x\n"}]]
     return {"full": full, "gopher_ok": gopher_ok, "vsep": vsep, "site": site, "long": longn,
             "cache": draw(st.booleans()), "forms": draw(st.integers(0, len(CRAWL_FORMS) - 1))}
 
